@@ -409,13 +409,17 @@ def c19(tier, seed):
             ("aes-detect-off", {"force_off": 1}, "AES"), ("kuz-soft", {}, "Kuznyechik"), ("kuz-compact", {}, "Kuznyechik"),
             ("serpent-loop", {}, "Serpent"), ("feat-all", {}, None)]
     plan += [(sid, {}, fam) for sid, fam in shadow_cfgs(("AES", "Kuznyechik"))]
+    allev = []
     for i, (cfg_id, extra, fam) in enumerate(plan):
         kw = dict(keys=nk)
         if fam:
             kw["family"] = fam
         kw.update(extra)
         e = renumber(c.drive(cfg_id, "names", **kw), (i + 1) * 10_000_000)
-        c.validate(e, API_MOD, API_CFG, f"names-{cfg_id}", what=f"Debug/AlgorithmName ({cfg_id})", shards=2)
+        for x in e:
+            x["cfg"] = cfg_id
+        allev += e
+    c.validate(allev, API_MOD, API_CFG, "names-backends", what="Debug/AlgorithmName (backend configurations)")
     c.exhaustive = True
     rule = ("every catalogue type, in every backend configuration that has its own impls: Debug text of instances under different "
             "keys identical, contains the type's own name tokens as whole words (spec/NameTokens.tla), RC5 digit groups = <<w,r,b>>; "
